@@ -86,8 +86,62 @@ func lengthProbes(c *sim.Ctx, a *ref.AP) {
 	}
 }
 
+// c01LengthSweep: reserved runs walk through EVERY length of a block for one
+// string field and one binary field (PUBLISH topic + payload, user property
+// value, CONNECT client id + password) and round-trip each packet.
+const c01SweepRuns = 64
+
+func c01LengthSweep(c *sim.Ctx) *sim.Violation {
+	block := 32
+	if c.Thorough {
+		block = 1024 // 64 runs x 1024 = every length 0..65535
+	}
+	lo := int(c.Run) * block
+	g := gen.NewG(c.T, c.Thorough, 0)
+	for n := lo; n < lo+block && n <= 65535; n++ {
+		var aps []*ref.AP
+		aps = append(aps, &ref.AP{Type: ref.Publish, Topic: g.Str(n), Payload: g.Bin(n % 4096)})
+		aps = append(aps, &ref.AP{Type: ref.PubAck, PacketID: 7, Reason: 0x10, Props: []ref.Prop{{ID: 0x26, K: []byte("k"), V: g.Str(n)}}})
+		cn := &ref.AP{Type: ref.Connect, ProtoName: []byte("MQTT"), ProtoVer: 5, ClientID: g.Str(n % 4096), Password: g.Bin(n)}
+		if n > 0 {
+			cn.ConnFlags = ref.CFPassword
+		}
+		aps = append(aps, cn)
+		for _, a := range aps {
+			p, _, err := buildGuard(a, nil)
+			if err != nil {
+				return sim.V("C01/"+a.TypeName()+"/build", "%v", err)
+			}
+			b, werr, pi := encodeReal(p)
+			if werr != nil || pi != nil {
+				return sim.V("C01/"+a.TypeName()+"/length-sweep/WriteTo", "length %d: err=%v panic=%v", n, werr, pi)
+			}
+			got := ReadOne(link.NewReader(c, b, link.Mode{}))
+			if got.Kind != "packet" {
+				return sim.V("C01/"+a.TypeName()+"/length-sweep/decode", "field length %d: frame %s -> %s", n, hexs(b), got)
+			}
+			if name, wv, gv := ref.FirstDiff(a.Canon(), got.Canon); name != "" {
+				return sim.V("C01/"+a.TypeName()+"/length-sweep/"+name, "field length %d: accessor %s want %q got %q", n, name, wv, gv)
+			}
+			b2, _, _ := encodeReal(got.P)
+			if !bytes.Equal(b, b2) {
+				return sim.V("C01/"+a.TypeName()+"/length-sweep/re-encode", "field length %d: re-encoded bytes differ", n)
+			}
+		}
+	}
+	c.CountN("sweep.every-field-length.lengths", int64(block))
+	c.DistinctStr(fmt.Sprintf("sweep/%d", lo))
+	if c.WantSample() {
+		c.Sample(fmt.Sprintf("length sweep: PUBLISH topic, PUBACK user-property value and CONNECT password of every length %d..%d round-trip", lo, lo+block-1))
+	}
+	return nil
+}
+
 func runC01(c *sim.Ctx) *sim.Violation {
 	t := c.T
+	if c.Run < c01SweepRuns {
+		return c01LengthSweep(c)
+	}
 	n := 1 + t.Pick(4, 2, 1, 1)
 	if n == 4 {
 		n = 4 + t.Int(3)
